@@ -258,7 +258,13 @@ pub fn draw(seed: u64, i: u64, tasks: &[Task], thorough: bool) -> Scenario {
     }
     // a third program, anywhere (only unambiguous when there is no .spec)
     if !has_spec && rng.pct(30) {
-        let c = if rng.pct(50) { "zzthird(1).\nzzthird(X) :- zzthird(X), X > 5.\n".to_string() } else { pool.iter().find(|p| p.0 == "lp1").map(|p| p.2.clone()).unwrap_or_else(|| "p.\n".into()) };
+        // a third program: one of its own, a copy of the first, an empty file, or comments only
+        let c = match rng.below(4) {
+            0 => "zzthird(1).\nzzthird(X) :- zzthird(X), X > 5.\n".to_string(),
+            1 => pool.iter().find(|p| p.0 == "lp1").map(|p| p.2.clone()).unwrap_or_else(|| "p.\n".into()),
+            2 => String::new(),
+            _ => "% nothing but a comment\n".to_string(),
+        };
         pool.push(("lp3".into(), "lp".into(), c));
     }
 
